@@ -281,3 +281,23 @@ func VerifC11_Transfer() {
 	vpCheckStore(s, ref)
 	vpReach("end")
 }
+
+// VerifC11_Layouts: the map check of VerifC11_Map started from characteristic table layouts (a recycled table, a
+// recycled table reused under a new coefficient, overwrite churn; recycled tables dropped when idle or kept), then
+// any script over all six operations including compaction and transfer.
+func VerifC11_Layouts() {
+	nkeys := vpBound("keys")
+	steps := vpBound("steps")
+	big := vpBound("biglen")
+	size := vpSizes[vpChoose("size", len(vpSizes))]
+	vpIdleNow = vpChoose("idle", 2) == 1
+	s := vpMkStore(size)
+	ref := make([]vpRef, nkeys)
+	vpPrepare(s, ref, 1+vpChoose("layout", 3))
+	vpCheckStore(s, ref)
+	for i := 0; i < steps; i++ {
+		s = vpStep(s, ref, nkeys, big, size, 2*steps+8, 6)
+		vpCheckStore(s, ref)
+	}
+	vpReach("end")
+}
